@@ -460,7 +460,13 @@ impl Model {
                     }
                 }
             }
-            EngineEv::BecameUnnecessary(_) => {}
+            EngineEv::BecameUnnecessary(eid) => {
+                if self.phase == Phase::Propagating {
+                    if let Some(&h) = self.by_engine.get(&eid) {
+                        self.lost_necessity.insert(h);
+                    }
+                }
+            }
         }
     }
 
@@ -601,13 +607,26 @@ impl Model {
             (RK::MapWithOld { .. }, Some(o)) => o != new,
             // depend_on installs a cutoff comparing the two nodes' change stamps (until replaced)
             (RK::DependOn { a, .. }, Some(_)) if !self.nodes[h].cutoff_set => {
-                let c = self.nodes[*a].last_changed != self.nodes[h].last_changed;
-                // the engine compares its own change stamps: a relaxed (R2) change of a map_ref input
-                // bumps the input's stamp and so may show as a change here
-                if !c && self.nodes[*a].maybe_changed == Some(round) {
+                // the engine compares its own change stamps of the two nodes. Where a node's last
+                // change was a relaxed one (R2: the engine may or may not have reported it), its
+                // stamp is one of two candidates; the verdict is definite only if it is the same
+                // under every combination
+                let stamps = |n: &crate::model::MNode| -> Vec<Option<u32>> {
+                    let mut v = vec![n.last_changed];
+                    if Self::opt_gt(n.maybe_changed, n.last_changed) {
+                        v.push(n.maybe_changed);
+                    }
+                    v
+                };
+                let (sa, sh) = (stamps(&self.nodes[*a]), stamps(&self.nodes[h]));
+                let mut verdicts = sa.iter().flat_map(|x| sh.iter().map(move |y| x != y));
+                let first = verdicts.next().unwrap_or(true);
+                if verdicts.all(|v| v == first) {
+                    first
+                } else {
                     maybe = true;
+                    false
                 }
-                c
             }
             (RK::MapRef { src, .. } | RK::MapRefQ { src }, Some(o)) => {
                 let s = &self.nodes[*src];
